@@ -123,7 +123,7 @@ PROPS = {
     "C19": {
         "title": "Idle/empty/finished queries tell the truth",
         "lean": ["TopsimProps.C19", "TopsimProofs.Bridge.Queries"],
-        "streams": [("default", 24, 300), ("chaotic", 12, 200), ("clusterops", 20, 400)],
+        "streams": [("default", 24, 300), ("chaotic", 12, 200), ("clusterops", 20, 400), ("tiering", 10, 150), ("tierback", 8, 100)],
         "monitor": ["C19"],
     },
 }
